@@ -26,7 +26,7 @@ LEVEL_TEXT = ('every ordered pair of short point lists over per-scene site alpha
 LEVEL_NOTE = ('holds for the enumerated scenes, scales 1 arcsec..40 deg, chunk factors and list lengths <= 3+3 (29+49 in '
               'the dense layer); pairs within 1e-9 relative of the match length are do-not-care; configurations over the '
               'cell-count guard are skipped and counted. Trusted: the separation formula in mc/props/_sphere.py, numpy.')
-RULE = ('Layer A: per (scene, match length s, chunk size) all 576x72 (n=8 sites; fewer sites in smaller tiers) ordered '
+RULE = ('Layer A: per (scene, match length s, chunk size) all (n^2+n^3)x(n+n^2) (n=7 sites thorough: 392x56; n=6 quick: 252x42) ordered '
         'lists with repetition, list1 of 2-3 and list2 of 1-2 sites placed at multiples of 0.37 s. Layer B: per frame and '
         'cell corner one call with 2 frame points + 5x5 probes vs 7x7 targets. Layer C: maxmatch 1..3 over all ordered '
         'lists (list1 2-3, list2 1-3 sites) of a cluster. A case is non-trivial when brute force finds at least one pair '
@@ -385,7 +385,8 @@ def _run_B(acc, task):
         dec2 = np.array([p[1] for p in targets])
         sep = S.sep_matrix(ra1, dec1, ra2, dec2)
         bad, info = check_arrays(ra1, dec1, ra2, dec2, s, chunk, 0, sep=sep)
-        acc.case((cfg, ci), info['ntrue'] > 0, info.get('outcome', '?').replace('ok:4+-pairs', 'ok:dense-call'))
+        acc.case((cfg, ci), info['ntrue'] > 0,
+                 info.get('outcome', 'bad:' + bad[0][0] if bad else '?').replace('ok:4+-pairs', 'ok:dense-call'))
         acc.extra['layerB_pairs_decided'] += int(sep.size)
         acc.extra['layerB_true_pairs'] += info['ntrue']
         acc.extra['dont_care_pairs_in_band'] += info['nband']
